@@ -74,7 +74,7 @@ def gen_workload(tape):
         o = {"op": tape.pick(kinds, "op")}
         if o["op"] in ("closest", "getitem"):
             o["q"] = gen_t(tape)
-            o["filters"] = C1.gen_filters(tape) if F.uses_sat(t) else None
+            o["filters"] = C1.gen_filters(tape, t.get("mode_in_name")) if F.uses_sat(t) else None
             o["as_str"] = tape.flag("as_str", 1, 5)
         elif o["op"] == "create":
             fs = F.gen_files(tape, t, 1)
@@ -190,6 +190,8 @@ class Run(C1.Run):
             self.probe("several_candidates")
         if filters:
             self.probe("with_filters")
+            if len(filters) > 1:
+                self.probe("filter_two_placeholders")
         if any(self.cov(f)[0] == t for f in self.files):
             self.probe("exact_name_shortcut_possible")
         # ---- the call ------------------------------------------------------------
